@@ -113,21 +113,27 @@ def parseOnOff? : String → Option (Option Bool)
   | "dflt" => some none
   | _ => none
 
+/-- A market item; the input-level guard `SysHandle.MktOk` (positive price, positive reaction
+quantity) is enforced here: anything else is `bad-op` on both sides (the real engine panics on
+positions of quantity 0 / entry price 0: `Props.C20S.zero_quantity_fill_witness`). -/
 def parseMkt (id : Nat) (t : String) : Option MktEv :=
   match t.splitOn ":" with
   | [i, p] =>
     match i.toNat?, parseRat? p with
-    | some i, some p => some ⟨id, i, p, none, false⟩
+    | some i, some p => if 0 < p then some ⟨id, i, p, none, false⟩ else none
     | _, _ => none
   | [i, p, sd, q] =>
     match i.toNat?, parseRat? p, parseSide sd, parseRat? q with
-    | some i, some p, some sd, some q => some ⟨id, i, p, some (sd, q), false⟩
+    | some i, some p, some sd, some q => if 0 < p && 0 < q then some ⟨id, i, p, some (sd, q), false⟩ else none
     | _, _, _, _ => none
   | _ => none
 
+/-- A handle call; the input-level guard `SysHandle.ActOk` (open requests with positive price and
+quantity) is enforced here. -/
 def parseCall : List String → Option (Call Command)
   | "open" :: rs => (parseReqs rs).bind fun (cs, os) =>
-      if cs.isEmpty && !os.isEmpty then some (send_open_requests os) else none
+      if cs.isEmpty && !os.isEmpty && os.all (fun o => 0 < o.price && 0 < o.quantity)
+        then some (send_open_requests os) else none
   | "cancel" :: rs => (parseReqs rs).bind fun (cs, os) =>
       if os.isEmpty && !cs.isEmpty then some (send_cancel_requests cs) else none
   | ["close", f] => (parseFilter f).map close_positions
@@ -198,7 +204,7 @@ def model : Drv St where
           | some on => b1.audit_mode (if on then .enabled else .disabled) | none => b1
         let b3 := match trading with | some on => b2.trading_state on | none => b2
         let build := b3.build (cMkEngine k x2)
-        let exch : CExch := ⟨k, quote, List.replicate k base⟩
+        let exch : CExch := { k := k, quote := quote, base := List.replicate k base }
         let s : CSys := build.init exch [.snapshot quote (List.replicate k base)]
         ({ sys := some s, e0 := build.engine, k := k, printed := 0, mktCount := 0, taken := none, gone := false,
            now := 0, latency := lat, dues := [0] },
@@ -256,8 +262,11 @@ def model : Drv St where
           if s1.closePanicked then ({ st with sys := some s1, gone := true }, ["panic"]) else
           let acts := schedActs cEngine cExchange pickDrain fuel s1
           let s2 := run cEngine cExchange s1 acts
-          match result s2 with
-          | some (eng, audit) => finalBlock st s2 how eng audit
+          -- what the CALLER gets: `shutdown()` hands back the `JoinError` of a dead execution task
+          -- instead of the engine, `abort()` cannot fail (`SysHandle.outcome`)
+          match outcome CExch.dead s2 with
+          | some (.ok eng audit) => finalBlock st s2 how eng audit
+          | some .joinError => ({ st with sys := some s2, gone := true }, ["res joinerr 1"])
           | none => ({ st with sys := some s2, gone := true }, ["hang"])
         else if how == "join" then
           match joinResult s with
@@ -284,8 +293,18 @@ structure SpecSt where
   gone : Bool
   mktCount : Nat
   k : Nat
+  /-- a request for an instrument the mocked exchange does not list has been sent to it: its
+  execution manager task has panicked -/
+  execDead : Bool
 
-def SpecSt.init : SpecSt := ⟨false, false, false, [], [], [], false, false, false, false, 0, 0⟩
+def SpecSt.init : SpecSt := ⟨false, false, false, [], [], [], false, false, false, false, 0, 0, false⟩
+
+/-- a command that carries a request addressed to the mocked exchange (0) for an instrument it does
+not list -/
+def callKillsExec (k : Nat) : Call Command → Bool
+  | .command (.sendOpenRequests rs) => rs.any fun r => r.key.exchange == 0 && k ≤ r.key.instrument
+  | .command (.sendCancelRequests rs) => rs.any fun r => r.key.exchange == 0 && k ≤ r.key.instrument
+  | _ => false
 
 /-- a command that carries a request for exchange 1 (no execution configured) -/
 def callIsFatal : Call Command → Bool
@@ -320,6 +339,8 @@ def spec : Drv SpecSt where
       if s.gone then (s, []) else
       match toks with
       | "mkt" :: items =>
+        -- the input guard (`parseMkt`) rejects items with a non-positive price / reaction quantity
+        if items.isEmpty || (items.zipIdx.any fun (t, j) => (parseMkt j t).isNone) then (s, ["bad-op"]) else
         if s.dead then (s, []) else
         let ids := (List.range items.length).map fun j => s!"M:{s.mktCount + j}"
         ({ s with newM := s.newM ++ ids, mktCount := s.mktCount + items.length }, [s!"pushed {items.length}"])
@@ -331,7 +352,7 @@ def spec : Drv SpecSt where
           if s.dead || s.fatalPending then (s, []) else
           let ev : CEv := c.event
           ({ s with handle := s.handle ++ [ev], newH := s.newH ++ [tagOf s.k ev],
-                    fatalPending := callIsFatal c }, ["sent"])
+                    fatalPending := callIsFatal c, execDead := s.execDead || callKillsExec s.k c }, ["sent"])
       | ["settle"] | ["sleep", _] =>
         if s.dead then (s, []) else
         let lines := [ "h " ++ joinOr s.newH ] ++ (if s.fatalPending then [] else [ "m " ++ joinOr s.newM ])
@@ -342,6 +363,9 @@ def spec : Drv SpecSt where
       | [how] =>
         if how == "shutdown" || how == "abort" then
           if s.dead || s.fatalPending then ({ s with gone := true }, []) else
+          -- `shutdown()` awaits the execution tasks and returns the join error of the one that
+          -- panicked; `abort()` only aborts them (`Props.C20S.shutdown_fails_where_abort_succeeds`)
+          if s.execDead && how == "shutdown" then ({ s with gone := true }, ["res joinerr 1"]) else
           let handle := s.handle ++ [Ev.shutdown]
           ({ s with gone := true },
            -- `m` / `a` EMPTY: nothing is processed behind the `Shutdown`, and in front of it only what
